@@ -70,7 +70,11 @@ SPEC = TreeSpec(
 
 
 def run(ctx: Ctx) -> Report:
+    from ..selftest import run_selftest
+
+    n_vectors = run_selftest()
     rep = run_tree_property(ctx, __name__, SPEC)
+    rep.extra["reference_codec_selftest_vectors"] = n_vectors
     for lab in ("unknown_tag_nested", "tagged_explicit_null"):
         if rep.labels.get(lab, 0) < 5:
             from ..engine import HarnessError
